@@ -220,7 +220,10 @@ TNext == /\ l < Len(Steps(tid))
                /\ \A n \in RangeOf(InvNames) : Report(InvHolds(B, n), "L1", l + 1, n)
                /\ \A n \in RangeOf(TrNames) : Report(TrHolds(A, B, n), "L1", l + 1, n)
                /\ Report(Truth_C19(B, cur2.q), "L1", l + 1, "C19.truth")
-               /\ Report((rec.raised = "" /\ rec.callexc = "") \/ B.cl = A.cl, "L1", l + 1, "C02.refused")
+               (* a refused *cluster* call: the event is the cluster's own process   *)
+               (* (task allocation, ingest provisioning) or a direct call            *)
+               /\ Report((rec.raised = "" /\ rec.callexc = "") \/ rec.lab.kind \notin {"TP", "PI", "CALL"} \/ B.cl = A.cl,
+                         "L1", l + 1, "C02.refused")
                /\ bos' = IF Boundary(A, B) THEN A ELSE bos
                /\ Report(Len(rec.rows) = 0 \/ (Len(rec.rows) = 1 /\ RowOK(IF Boundary(A, B) \/ l = 1 THEN A ELSE bos, rec.rows[1])), "L1", l + 1, "C12.row")
                /\ Report(NoLoss(em2, lg2, B), "L1", l + 1, "C13.noloss")
